@@ -11,9 +11,9 @@ import (
 
 func init() {
 	register(&Rule{
-		ID: "C27",
+		ID:      "C27",
 		Explain: "Decides the event-handler contract as table and shape facts: the event names a filter accepts are exactly the names EventType.String() produces plus '*'; a script runs only behind its filter's Invoke(e) == true, and Invoke returns true only on '*' or on type-name equality, additionally behind name equality for user:NAME / query:NAME filters; the type switch of the invoker covers every implementation of serf.Event; SERF_EVENT, SERF_SELF_NAME and SERF_SELF_ROLE are always set, the user/query name and Lamport time variables in their arms, SERF_TAG_ names go through upper-casing and the [^A-Z0-9_] sanitiser; a member line has exactly four tab-separated fields ending in a newline with the free-text fields passed through the tab/newline escaper; a payload gets a newline appended exactly when it is non-empty and lacks one; a query response is sent only after a successful run with output, from the 8 KiB ring buffer. What the shell does is not covered.",
-		Run: runC27,
+		Run:     runC27,
 		Mutants: []Mutant{
 			{Name: "filter-accepts-unknown-event", File: "cmd/serf/command/agent/event_handler.go", Func: "func (s *EventFilter) Valid(", Old: "\tcase \"member-reap\":\n", New: "\tcase \"member-reap\":\n\tcase \"member-remove\":\n", Expect: "R1"},
 			{Name: "user-name-filter-ignored", File: "cmd/serf/command/agent/event_handler.go", Func: "func (s *EventFilter) Invoke(", Old: "\t\tif userE.Name != s.Name {\n\t\t\treturn false\n\t\t}\n", New: "\t\t_ = userE\n", Expect: "R4"},
